@@ -11,7 +11,10 @@ fn main() {
         eprintln!("usage: probe <engine>");
         std::process::exit(2);
     }
-    let name = args[1].clone();
+    // `passlog:<engine>`: print the pass log of the I/O loop(s) (hook `verif::pass_log`, with the
+    // mock transport's notes) instead of the engine's own observations
+    let passlog = args[1].starts_with("passlog:");
+    let name = args[1].trim_start_matches("passlog:").to_string();
     if engines::make(&name).is_none() {
         eprintln!("unknown engine {}", name);
         std::process::exit(2);
@@ -30,6 +33,7 @@ fn main() {
             *g = Some(loc);
         }
     }));
+    amiquip::verif::pass_log::enable(passlog);
     let stdin = std::io::stdin();
     let stdout = std::io::stdout();
     let mut w = std::io::BufWriter::new(stdout.lock());
@@ -55,8 +59,16 @@ fn main() {
         }
         let mut out = Vec::new();
         let r = catch_unwind(AssertUnwindSafe(|| eng.step(&toks, &mut out)));
-        for o in out {
-            writeln!(w, "{}", o).unwrap();
+        if passlog {
+            // (a moment for the I/O thread to finish what the step left running)
+            std::thread::sleep(std::time::Duration::from_millis(30));
+            for o in amiquip::verif::pass_log::take() {
+                writeln!(w, "P {}", o).unwrap();
+            }
+        } else {
+            for o in out {
+                writeln!(w, "{}", o).unwrap();
+            }
         }
         if r.is_err() {
             let loc = amq_harness::take_last_panic().unwrap_or_default();
